@@ -124,6 +124,30 @@ def first_fit_and_greedy(ctx, o, S):
     fill = prog.func(S['fill'])
     ex = Expander(prog, fill, ctx.typer)
     for c in sched.reserve_calls(ctx, fill):
+        # ... and on EVERY visited day with free > 0: the search accepts a day on `free > 0` alone, so any further condition on
+        # the booking lets the search pick a start day on which nothing is booked (the remainder stays idle)
+        lp = sched.while_loop_of(fill, c)
+        if lp is not None:
+            fcfg = cfg_of(fill)
+            lt = sched.sign_test(lp.test)
+            gv = lt[0].id if lt and isinstance(lt[0], ast.Name) else None
+            extra = []
+            for t0, pol0 in fcfg.conditions(fcfg.node_containing(c)):
+                if t0 is lp.test or not any(x is t0 for st_ in lp.body for x in ast.walk(st_)):
+                    continue
+                for a, pa in facts.split_conj(ex.expand(t0, fcfg.node_containing(t0)), pol0):
+                    st = sched.sign_test(a, pa)
+                    if st and st[1] == '>' and (parse_free(st[0], S['balance']) or (isinstance(st[0], ast.Name) and st[0].id == gv)):
+                        continue
+                    extra.append((a, pa))
+            cmp_ = [(a, pa) for a, pa in extra if isinstance(a, ast.Compare) and any(parse_free(x, S['balance']) or parse_cap(x) for x in ast.walk(a))]
+            if cmp_:
+                o.refute(fill, c, cmp_[0][0], "a visited day with free capacity is booked only if additionally " + ', '.join(facts.cond_texts(cmp_))[:120] +
+                         ": the search accepts every day with free > 0 as start day, so a start day can get no booking and its remainder stays idle")
+                continue
+            elif extra:
+                o.undecided(fill, c, extra[0][0], "the booking is additionally conditioned on " + ', '.join(facts.cond_texts(extra))[:100])
+                continue
         amt = ex.expand(c.args[3]) if len(c.args) == 4 else None
         margs = facts.flatten_lattice(amt, 'min') if amt is not None else None
         frees = [a for a in (margs or []) if parse_free(a, S['balance'])]
@@ -745,7 +769,11 @@ def scheduled_once(ctx, o, ps: PassShape):
     S, prog = ps.S, ctx.prog
     memo = ps.memo
     if ps.memo_on_self or getattr(ps, 'memo_on_task', None) or memo not in ps.f.params:
-        o.site(ps.f, ps.f.node, f"memo `{memo}` is not a parameter (its scope is another obligation's subject)")
+        # a memo that outlives the call (scheduler / task state): the second calc() skips every task it has seen - nothing is
+        # reserved for them.  sched.memo_is_local names the construct
+        sched.memo_is_local(ctx, o, S)
+        if not o.refuted and not o.unknown:
+            o.site(ps.f, ps.f.node, f"memo `{memo}`")
         return
     midx = ps.f.params.index(memo) - 1
     sc = ps.memo_shortcut() if hasattr(ps, 'memo_shortcut') else None
